@@ -171,13 +171,11 @@ package yubiattest
 //@ # the conversion parseCertificate (reflection-driven ASN.1 code) is ASSUMED through the contract below.
 //@ func parseCertificate(in)
 //@   flag logged
-//@   modifies all
 //@   ensures result1 != nil ==> result0 == nil
 //@   ensures result1 == nil ==> (result0 != nil && fresh(result0))
 
 //@ func ParseCertificate(asn1Data)
 //@   flag logged
-//@   modifies all
 //@   let u0 = old(calls(asn1.Unmarshal))
 //@   let q0 = old(calls(parseCertificate))
 //@   ensures result1 != nil ==> result0 == nil
